@@ -18,7 +18,7 @@ RULE = ("Inner applications = generated response recipes of every class (several
         "ASGI body events, repeated headers, odd reason phrases), plus apps raising before / after start or mid-body; wrapped in identity `middleware` stacks of depth "
         "1-3, identity `decorator` stacks of depth 1-3 and a middleware that edits exactly one header; GET/HEAD, Range for files; both interfaces. "
         "Non-trivial = inner app with repeated headers, >=2 body chunks, an empty body, or an error; distinct = (recipe, wrapper, depth, request, interface).")
-RULE += ' Also: 2-4 requests with bodies of different lengths in flight together through one wrapped app; bodies above 1 MiB, latin-1 Set-Cookie lines, headers handed over as a one-shot iterator, a middleware appending to an existing header under a mixed-case name, iterators without close() that raise after the first chunk, a repeated header whose first value is empty, one reused bytearray as ASGI body (the emulators snapshot it when written). Inner iterables that are list / tuple subclasses with close(). WSGI chunks yielded before an inner failure reach the client behind the wrappers as they do without; one header mapping (Headers / MutableHeaders / dict) handed to every response behind an appending wrapper: request 3 like request 1, the bare application unchanged. Cookie lines of the inner application in other spellings (no blank after the semicolon, blanks around =, trailing semicolon, nameless); an inner application that reports what it reads from its environ / scope by [key], get(key, default) and in.'
+RULE += ' Also: 2-4 requests with bodies of different lengths in flight together through one wrapped app; bodies above 1 MiB, latin-1 Set-Cookie lines, headers handed over as a one-shot iterator, a middleware appending to an existing header under a mixed-case name, iterators without close() that raise after the first chunk, a repeated header whose first value is empty, one reused bytearray as ASGI body (the emulators snapshot it when written). Inner iterables that are list / tuple subclasses with close(). WSGI chunks yielded before an inner failure reach the client behind the wrappers as they do without; one header mapping (Headers / MutableHeaders / dict) handed to every response behind an appending wrapper: request 3 like request 1, the bare application unchanged. Cookie lines of the inner application in other spellings (no blank after the semicolon, blanks around =, trailing semicolon, nameless); an inner application that reports what it reads from its environ / scope by [key], get(key, default) and in. A wrapper that edits a header the response class sets itself (Content-Type, Vary); a raw ASGI application that sends one constant start message for every request.'
 ASSUMPTIONS = [
     "headers are compared as multisets with case-folded names; reason phrases and body chunking are not compared",
     "Set-Cookie expiry dates are masked (two runs may straddle a second)",
@@ -472,6 +472,70 @@ def request_seen_by_inner(ctx, rng):
     return case
 
 
+def edit_of_a_standard_header(ctx, rng):
+    """the one header a wrapper edits is one the response class fills in itself (Content-Type, Content-Length aside): the edit is what
+    goes out, once, and nothing else changes - through a decorator around the view and through a middleware, on both interfaces;
+    and a raw ASGI application that keeps ONE start message (a module constant) answers its third request like its first"""
+    from baize import asgi, wsgi
+    cls_name = rng.choice(["PlainTextResponse", "HTMLResponse", "JSONResponse"])
+    wrapper = rng.choice(["middleware", "decorator"])
+    name, value = rng.choice([("Content-Type", "text/x-edited; charset=utf-8"), ("content-type", "application/x-edited"), ("Vary", "X-Edited")])
+    case = {"wrapper_edits_a_header_the_response_class_sets_itself": name, "class": cls_name, "wrapper": wrapper}
+    for iface, ns in (("wsgi", wsgi), ("asgi", asgi)):
+        def build():
+            return getattr(ns, cls_name)({"a": 1} if cls_name == "JSONResponse" else "x")
+        if iface == "wsgi":
+            def view(request):
+                return build()
+
+            def edit(request, next_call):
+                response = next_call(request)
+                response.headers[name] = value
+                return response
+        else:
+            async def view(request):
+                return build()
+
+            async def edit(request, next_call):
+                response = await next_call(request)
+                response.headers[name] = value
+                return response
+        bare = ns.request_response(view)
+        app = ns.middleware(edit)(bare) if wrapper == "middleware" else ns.request_response(ns.decorator(edit)(view))
+
+        def ask(a):
+            if iface == "wsgi":
+                r = drivers.run_wsgi(a, drivers.to_environ(drivers.Req()))
+                return r.exc, sorted(drivers.norm_headers_wsgi(r.headers or [])), r.body
+            r = drivers.run_asgi(a, drivers.to_scope(drivers.Req()))
+            return r.exc, sorted(drivers.norm_headers_asgi(r.headers or [])), r.body
+        b, w = ask(bare), ask(app)
+        ctx.mon("edit-one-header")
+        c = dict(case, iface=iface)
+        if b[0] is not None or w[0] is not None:
+            ctx.violation(f"wrapped-raises|{type(b[0] or w[0]).__name__}|{iface}|{wrapper}|standard-header-edit", c, repr(b[0] or w[0])[:200])
+            continue
+        want = sorted([(k, v) for k, v in b[1] if k != name.lower()] + [(name.lower(), value)])
+        if w[1] != want or w[2] != b[2]:
+            ctx.violation(f"headers-differ|{iface}|edit|edit-of-a-header-the-class-sets-is-lost", c, f"wrapped {w[1]}; expected {want}")
+    # ---- a raw ASGI application whose start message is one dict for all requests
+    START = {"type": "http.response.start", "status": 200, "headers": [(b"content-type", b"text/plain"), (b"set-cookie", b"a=1"), (b"x-k", b"v")]}
+
+    async def constant(scope, receive, send):
+        await send(START)
+        await send({"type": "http.response.body", "body": b"constant"})
+    wrapped = identity_middleware(asgi, "asgi")(constant)
+    answers = []
+    for _ in range(3):
+        r = drivers.run_asgi(wrapped, drivers.to_scope(drivers.Req()))
+        answers.append((r.exc, r.status, sorted(drivers.norm_headers_asgi(r.headers or [])), r.body))
+    r0 = drivers.run_asgi(constant, drivers.to_scope(drivers.Req()))
+    bare = (r0.exc, r0.status, sorted(drivers.norm_headers_asgi(r0.headers or [])), r0.body)
+    if not (answers[0] == answers[1] == answers[2] == bare):
+        ctx.violation("headers-differ|asgi|middleware|later-request-differs-from-the-first", dict(case, inner="raw application sending one constant start message"), f"bare {bare[1:3]}; third wrapped {answers[2][1:3]}")
+    return case
+
+
 def close_propagation(ctx, rng):
     """the server abandons a WSGI response after k chunks and calls close(): the inner application's iterable must be
     closed behind the middleware exactly as it is without it (PEP 3333: the only way the application learns about it)"""
@@ -604,6 +668,9 @@ def run(ctx):
     for i in range(ctx.scale(12, 600)):
         case = request_seen_by_inner(ctx, rng)
         ctx.case((repr(case), i))
+    for i in range(ctx.scale(12, 600)):
+        case = edit_of_a_standard_header(ctx, rng)
+        ctx.case((repr(case), i))
     for i in range(ctx.scale(150, 6000)):
         case = overlapped_requests(ctx, rng)
         ctx.case(repr(case))
@@ -635,6 +702,12 @@ def run(ctx):
 
 
 def replay(ctx, case):
+    if "wrapper_edits_a_header_the_response_class_sets_itself" in case:
+        rng = ctx.rng("c20-replay")
+        for _ in range(60):
+            edit_of_a_standard_header(ctx, rng)
+        ctx.case(1)
+        return
     if "inner_application_reports_what_it_reads_from_its_request_mapping" in case:
         rng = ctx.rng("c20-replay")
         for _ in range(40):
